@@ -36,7 +36,7 @@ ASSUMPTIONS = [
     "explicit eigenvectors are exact (bi)orthonormal eigenvectors of h_0 up to rounding; implicit energies are >= 1 away from explicit ones",
     "KPM tolerance: residual <= 50 * a * atol * (1 + |Y|) with a the half bandwidth, or a convergence RuntimeWarning",
 ]
-REQUIRED_CLASSES = {"all": ["mode=diagonal", "mode=direct", "mode=greens", "mode=kpm", "rhs=sparse", "rhs=sympy", "orientation=left",
+REQUIRED_CLASSES = {"all": ["mode=diagonal", "mode=direct", "mode=greens", "mode=kpm", "mode=operator", "operator-diagonal-index", "rhs=sparse", "rhs=sympy", "orientation=left",
                             "orientation=right", "biorthogonal", "degenerate-explicit", "aux-vectors", "dtype=float32"]}
 
 
@@ -116,8 +116,29 @@ def _h0_case(draw, mode):
     return case
 
 
+OP_MODE_SETS = [[["b", "a"]], [["b", "a"], ["s", "s"]], [["f", "f"], ["f", "g"]], [["b", "a"], ["f", "f"]], [["l", "l"], ["s", "s"]], [["s", "s"], ["f", "f"]]]
+
+
+@st.composite
+def _operator_case(draw):
+    modes = draw(st.sampled_from(OP_MODE_SETS))
+    nb = draw(st.integers(1, 2))
+    sizes = [draw(st.integers(1, 2)) for _ in range(nb)]
+    i = draw(st.integers(0, nb - 1))
+    j = draw(st.integers(0, nb - 1))
+
+    def word():
+        L = draw(st.integers(1, 2))
+        return {"ops": [[draw(st.sampled_from(["op", "dag", "op", "dag", "num"])), draw(st.integers(0, len(modes) - 1))] for _ in range(L)],
+                "coef": [draw(st.sampled_from([1, 2, -1, 3])), draw(st.sampled_from([1, 2])), draw(st.sampled_from([0, 0, 1]))]}
+
+    Y = [[[word() for _ in range(draw(st.integers(1, 2)))] for _ in range(sizes[j])] for _ in range(sizes[i])]
+    return {"mode": "operator", "modes": modes, "sizes": sizes, "index": [i, j], "Y": Y, "freq_order": list(draw(st.permutations(range(7)))),
+            "offsets": [[draw(st.integers(0, 6)) for _ in range(s)] for s in sizes], "kerr": draw(st.booleans())}
+
+
 def strategy(tier):
-    return st.one_of(_diagonal_case(), _diagonal_case(), _h0_case("direct"), _h0_case("direct"), _h0_case("greens"), _h0_case("kpm"))
+    return st.one_of(_diagonal_case(), _diagonal_case(), _h0_case("direct"), _h0_case("direct"), _h0_case("greens"), _h0_case("kpm"), _operator_case())
 
 
 # -------------------------------------------------------------------------- helpers
@@ -168,7 +189,7 @@ def check_case(case, enforce_all=False):
     out.labels.append("mode=" + case["mode"])
     with warnings.catch_warnings(record=True) as wlist:
         warnings.simplefilter("always")
-        {"diagonal": _check_diagonal, "direct": _check_direct, "greens": _check_greens, "kpm": _check_kpm}[case["mode"]](case, out, wlist)
+        {"diagonal": _check_diagonal, "direct": _check_direct, "greens": _check_greens, "kpm": _check_kpm, "operator": _check_operator}[case["mode"]](case, out, wlist)
     return out
 
 
@@ -454,4 +475,132 @@ def _check_kpm(case, out, wlist):
     if float(np.abs(res).max()) > tol:
         out.fail("kpm-residual", f"KPM residual {np.abs(res).max():.3g} > {tol:.3g} (atol {case['kpm_atol']}, aux {n_aux}) and no convergence warning")
         return
+    out.nontrivial = True
+
+
+def _check_operator(case, out, wlist):
+    """solve_sylvester_2nd_quant: H_ii X - X H_jj = Y as an operator identity, decided through the Fock matrix model."""
+    import itertools
+    from fractions import Fraction
+
+    import sympy
+    from sympy.physics.quantum import Dagger
+
+    from props.c07 import FREQ, _shift, _word_expr
+    from pymablock.number_ordered_form import NumberOperator
+    from pymablock.second_quantization import solve_sylvester_2nd_quant
+    from pymablock.series import zero
+    from vlib.fock import Space, make_ops
+
+    ops = make_ops(case["modes"])
+    kinds = [m[0] for m in sorted(case["modes"], key=lambda m: ({"b": 0, "l": 1, "s": 2, "f": 3}[m[0]], m[1]))]
+    i, j = case["index"]
+    sizes = case["sizes"]
+    diag_index = i == j
+    if diag_index:
+        out.labels.append("operator-diagonal-index")
+    N = [NumberOperator(o) for o in ops]
+    nm = len(ops)
+    # right-hand side: operator matrix; for a diagonal block index it must be Hermitian (caller precondition)
+    W = [[sum(_word_expr(w, ops, NumberOperator) for w in cell) for cell in row] for row in case["Y"]]
+    shifts = set()
+    rows, cols = sizes[i], sizes[j]
+    Y = sympy.zeros(rows, cols)
+    for r in range(rows):
+        for c in range(cols):
+            if diag_index:
+                if r > c:
+                    continue
+                cell = case["Y"][r][c]
+                if r == c:
+                    cell = [w for w in cell if any(_shift(w, nm))]  # H_ii - H_ii vanishes on number-conserving terms
+                    e = sum((_word_expr(w, ops, NumberOperator) for w in cell), sympy.Integer(0))
+                    Y[r, r] = e + Dagger(e)
+                else:
+                    Y[r, c] = W[r][c]
+                    Y[c, r] = Dagger(W[r][c])
+                for w in cell:
+                    shifts.add(_shift(w, nm))
+            else:
+                Y[r, c] = W[r][c]
+                for w in case["Y"][r][c]:
+                    shifts.add(_shift(w, nm))
+    shifts |= {tuple(-x for x in s_) for s_ in shifts}
+    if all(sympy.expand(y) == 0 for y in Y):
+        out.labels.append("skipped:right-hand-side-vanishes")
+        return
+    cutoff = 5
+    space = Space(ops, cutoff)
+    # energies: sum w N (+ Kerr) + distinct constant offsets per matrix entry; verify non-resonance by enumeration
+    cand = [FREQ[q] for q in case["freq_order"]]
+    chi = Fraction(1, 16) if case["kerr"] and "b" in kinds else Fraction(0)
+    chosen = None
+    for combo in itertools.permutations(cand, nm):
+        def energy(occ, off):
+            e = sum(w * n for w, n in zip(combo, occ)) + Fraction(off, 8) + Fraction(off * off, 64)
+            if chi:
+                q = kinds.index("b")
+                e += chi * occ[q] * occ[q]
+            return e
+
+        ok = True
+        ranges = [range(0, cutoff + 1) if k_ == "b" else range(-cutoff, cutoff + 1) if k_ == "l" else range(2) for k_ in kinds]
+        offs_i = case["offsets"][i]
+        offs_j = case["offsets"][j] if not diag_index else offs_i
+        # distinct entries need distinct offsets when the shift is zero
+        for occ in itertools.product(*ranges):
+            for sh in shifts | {(0,) * nm}:
+                tgt = tuple(a + b for a, b in zip(occ, sh))
+                if any(t not in rg for t, rg in zip(tgt, ranges)):
+                    continue
+                for r in range(rows):
+                    for c in range(cols):
+                        if not any(sh) and (diag_index and r == c):
+                            continue
+                        if abs(energy(tgt, offs_i[r] + 10 * i) - energy(occ, offs_j[c] + 10 * j)) < Fraction(1, 8):
+                            ok = False
+            if not ok:
+                break
+        if ok:
+            chosen = combo
+            break
+    if chosen is None:
+        out.labels.append("skipped:no-non-resonant-frequencies")
+        return
+
+    def h_expr(off, blk):
+        e = sum(sympy.Rational(w.numerator, w.denominator) * n for w, n in zip(chosen, N))
+        off = off + 10 * blk
+        e = e + sympy.Rational(off, 8) + sympy.Rational(off * off, 64)
+        if chi:
+            q = kinds.index("b")
+            e = e + sympy.Rational(1, 16) * N[q] * N[q]
+        return e
+
+    eigs = tuple([h_expr(off, b) for off in case["offsets"][b]] for b in range(len(sizes)))
+    try:
+        solve = solve_sylvester_2nd_quant(eigs)
+        X = solve(Y, (i, j, 1))
+    except Exception as exc:  # noqa: BLE001
+        out.fail("exception", f"solve_sylvester_2nd_quant raised {type(exc).__name__}: {str(exc)[:200]} for Y = {Y}")
+        return
+    if X is zero:
+        out.fail("value", f"second-quantised solver returned zero for Y = {Y}")
+        return
+    safe = space.safe(3)
+    for r in range(rows):
+        for c in range(cols):
+            try:
+                Xm = space.nof_matrix(X[r, c]) if X[r, c] != 0 else np.zeros((space.D, space.D), dtype=complex)
+                Ha = np.asarray(space.expr_matrix(eigs[i][r]), dtype=complex)
+                Hb = np.asarray(space.expr_matrix(eigs[j][c]), dtype=complex)
+                Ym = np.asarray(space.expr_matrix(Y[r, c]), dtype=complex) if Y[r, c] != 0 else np.zeros((space.D, space.D), dtype=complex)
+            except Exception as exc:  # noqa: BLE001
+                out.fail("exception", f"evaluating the solution element ({r},{c}) = {str(X[r, c])[:100]} failed: {type(exc).__name__}: {str(exc)[:100]}")
+                return
+            res = (Ha @ Xm - Xm @ Hb - Ym)[:, safe]
+            scale = max(1.0, float(np.abs(Ym).max()), float(np.abs(Xm[:, safe]).max()) * float(np.abs(Ha).max()))
+            if not np.all(np.isfinite(res)) or float(np.abs(res).max()) > 1e-9 * scale:
+                out.fail("operator-residual", f"H_ii X - X H_jj - Y != 0 for element ({r},{c}) of block {(i, j)}: residual {np.nanmax(np.abs(res)):.3g}; Y = {Y[r, c]}, X = {str(X[r, c])[:120]}")
+                return
     out.nontrivial = True
